@@ -122,6 +122,8 @@ def _run(prop, tier, replay, seed, work, t0):
         # replies (functions of their argument), concurrent callers and notifications; judged by SessionTrace (World.tla: TypedItem)
         import sched as S
         scs = S.generate("tlists", 250 if quick else 6000, seed)
+        # (profile "fatlist" - one list of more than 2 MiB - exists in lib/sched.py but is NOT run: TLC tokenizes every request line of the trace with
+        #  Tokenizer.tla and needs more than 30 minutes for 40 lines of 60 KB; seeded change C13-L is therefore not caught, see DESIGN.md 12.4 round 7)
         nsh = 1 if quick else 8
         straces = []
         for k in range(nsh):
